@@ -107,6 +107,37 @@ theorem auth_off_fixed_stores_payload (P : Params) (ok : EncodeOK P) (payload : 
   simp only [Bool.false_eq_true, if_false, if_true]
   exact framingOnly_decode_encode P ok payload hlen sizes
 
+/-- **stored_payload_all_carriers** (the current tree). Over the full product — every way of
+authenticating (header-signed, presigned query, anonymous with credentials configured, no
+credentials configured) × every streaming mode × every payload and chunking — the upload handler
+reads exactly the payload the client framed. -/
+theorem stored_payload_all_carriers (carrier : Carrier) (P : Params) (ok : EncodeOK P) (payload : Bytes)
+    (hlen : payload.length < 9223372036854775808) (sizes : List Nat) :
+    handlerBody true carrier P (encode P payload sizes) = .ok payload := by
+  cases carrier
+  · exact Chunked.decode_encode P ok payload hlen sizes
+  · exact Chunked.decode_encode P ok payload hlen sizes
+  · exact framingOnly_decode_encode P ok payload hlen sizes
+  · exact framingOnly_decode_encode P ok payload hlen sizes
+
+/-- **tampering_rejected_for_authenticated_carriers.** For both carriers that authenticate the
+request the handler's reader is `decode P`, so on every well-formed body its verdict is `check P`
+and the mutation theorems above apply — to presigned uploads exactly as to header-signed ones. -/
+theorem tampering_rejected_for_authenticated_carriers (carrier : Carrier) (hc : carrier = .header ∨ carrier = .presigned)
+    (u : Bool) (P : Params) (signed : Bool) (f : Frame) (wf : FrameWF f)
+    (hmode : signed = true ∨ P.skipValidation = true) (hts : P.trailerSigned = true → signed = true) :
+    handlerBody u carrier P (render signed P.hasTrailer f) = check P f := by
+  rcases hc with rfl | rfl <;> exact decode_render P signed f wf hmode hts
+
+/-- Without a key (anonymous, or no credentials configured) the reader is the framing-only one:
+its verdict is `check (framingOnly P)`, which still refuses a wrong checksum trailer
+(`mutated_trailer_checksum_rejected` applies to `framingOnly P`: same checksum, same name). -/
+theorem unauthenticated_carriers_check_framing (carrier : Carrier) (hc : carrier = .anonymous ∨ carrier = .authOff)
+    (P : Params) (signed : Bool) (f : Frame) (wf : FrameWF f) :
+    handlerBody true carrier P (render signed P.hasTrailer f) = check (framingOnly P) f := by
+  rcases hc with rfl | rfl <;>
+    exact decode_render (framingOnly P) signed f wf (Or.inr rfl) (by intro h; cases h)
+
 -- ---------------------------------------------------------------- non-vacuity (toy primitives)
 
 /-- toy checksum text: the hex of the payload (collision free, no white space) -/
